@@ -779,3 +779,188 @@ def rule_argument_order(ctx, rep, rid: str) -> None:
                     rep.ok(rid, key)
                 else:
                     rep.bad(rid, key, "host function called with reordered / keyword arguments", f"{m.module.rel}:{cs.line}")
+
+
+# ---- optional elements of host result objects (regex capture groups) -----------------------------------
+def _optional_item_classes(ctx) -> Dict[str, List[str]]:
+    """Host classes whose element accessors are declared to return Optional[...] (the regex MatchResult:
+    a group that did not participate is Python None): class name -> accessor names."""
+    out: Dict[str, List[str]] = {}
+    for lst in ctx.tree.classes.values():
+        for ci in lst:
+            acc = [n for n, m in ci.methods.items() if n in ("__getitem__", "group", "groups") and getattr(m.node, "returns", None) is not None and "Optional" in norm(m.node.returns)]
+            if "__getitem__" in acc:
+                out[ci.name] = acc
+    return out
+
+
+def rule_optional_groups_normalised(ctx, rep, rid: str, floor: int = 4) -> None:
+    """Every read of a capture group from a match object (Optional[str]: None = did not participate) outside the
+    regex package is None-aware before the value can travel on: tested against None / truthiness, or bound to a
+    local that is.  Otherwise Python None reaches script code as a value of no JavaScript type."""
+    rep.rule(rid, "every capture group read from a regex match object outside the regex package is tested for None (or defaulted with `or`) before it is used: a group that did not participate never reaches script code as Python None", floor=floor)
+    opt = _optional_item_classes(ctx)
+    if not opt:
+        raise AnalysisError("no host class with Optional element access found (regex MatchResult)")
+    producers = {id(f) for f in ctx.tree.funcs if getattr(f.node, "returns", None) is not None and any(c in norm(f.node.returns) for c in opt)}
+    if not producers:
+        raise AnalysisError("no function returning a match object found")
+
+    def none_aware(n: ast.AST, f: Func) -> bool:
+        p = getattr(n, "_parent", None)
+        if isinstance(p, ast.BoolOp) and isinstance(p.op, ast.Or) and p.values[-1] is not n:
+            return True
+        if isinstance(p, ast.IfExp) and p.test is n:
+            return True
+        if isinstance(p, ast.Compare) and any(isinstance(c, ast.Constant) and c.value is None for c in p.comparators):
+            return True
+        if isinstance(p, (ast.If, ast.While)) and p.test is n:
+            return True
+        if isinstance(p, ast.UnaryOp) and isinstance(p.op, ast.Not):
+            return True
+        if isinstance(p, ast.Assign) and len(p.targets) == 1 and isinstance(p.targets[0], ast.Name):
+            v = p.targets[0].id
+            uses = [x for x in f.own_nodes() if isinstance(x, ast.Name) and x.id == v and isinstance(x.ctx, ast.Load) and x.lineno >= p.lineno]
+            # every later use is itself None-aware, or is dominated by a None test of the local in an enclosing/earlier guard
+            tested = [u for u in uses if none_aware(u, f)]
+            return bool(tested) and all(u in tested or any(t.lineno <= u.lineno for t in tested) for u in uses)
+        return False
+
+    for f in ctx.tree.funcs:
+        if f.module.name.startswith("regex"):
+            continue
+        carriers: Set[str] = set()
+        h: Optional[Func] = f
+        while h is not None:
+            for cs in ctx.cg.sites_of.get(id(h), []):
+                if any(id(t) in producers for t in cs.targets):
+                    p = getattr(cs.call, "_parent", None)
+                    if isinstance(p, ast.Assign) and len(p.targets) == 1 and isinstance(p.targets[0], ast.Name):
+                        carriers.add(p.targets[0].id)
+            h = h.parent
+        # parameters bound to a carrier of the enclosing function at a call of this (nested) function
+        if f.parent is not None:
+            pc: Set[str] = set()
+            for cs in ctx.cg.sites_of.get(id(f.parent), []):
+                if any(id(t) in producers for t in cs.targets):
+                    p = getattr(cs.call, "_parent", None)
+                    if isinstance(p, ast.Assign) and isinstance(p.targets[0], ast.Name):
+                        pc.add(p.targets[0].id)
+            params = f.params()
+            for n in f.parent.own_nodes():
+                if isinstance(n, ast.Call) and isinstance(n.func, ast.Name) and n.func.id == f.name:
+                    for i, a in enumerate(n.args):
+                        if isinstance(a, ast.Name) and a.id in pc and i < len(params):
+                            carriers.add(params[i])
+        if not carriers:
+            continue
+        for n in f.own_nodes():
+            read = None
+            if isinstance(n, ast.Subscript) and isinstance(n.ctx, ast.Load) and isinstance(n.value, ast.Name) and n.value.id in carriers:
+                if isinstance(n.slice, ast.Constant) and n.slice.value == 0:
+                    continue  # the whole match always participates
+                read = n
+            elif isinstance(n, ast.Call) and isinstance(n.func, ast.Attribute) and n.func.attr in ("group", "groups") and isinstance(n.func.value, ast.Name) and n.func.value.id in carriers:
+                read = n
+            if read is None:
+                continue
+            key = f"{f.qual}:{norm(read)}"
+            if none_aware(read, f):
+                rep.ok(rid, key)
+            else:
+                rep.bad(rid, key, f"{f.qual} reads capture group {norm(read)} of a match object and uses it without a None test: a group that did not participate is Python None and travels on (callback argument, array element, string operation) as a value of no JavaScript type", f"{f.module.rel}:{read.lineno}")
+
+
+# ---- "is it an object?" decisions never count null as one ---------------------------------------------
+def _typeof_object_tests(tree: ast.AST) -> List[Tuple[ast.AST, str, bool]]:
+    """Comparisons of a js_typeof(E) result with "object" (==, !=, in, not in a literal collection holding
+    "object"): [(compare node, text of E, null_excluded)].  null_excluded: the enclosing boolean condition also
+    compares E with NULL (typeof null is "object", so the comparison alone takes null for an object)."""
+    out = []
+    typeof_locals: Dict[str, str] = {}
+    for n in ast.walk(tree):
+        if isinstance(n, ast.Assign) and len(n.targets) == 1 and isinstance(n.targets[0], ast.Name) and isinstance(n.value, ast.Call) and call_name(n.value) == "js_typeof" and n.value.args:
+            typeof_locals[n.targets[0].id] = norm(n.value.args[0])
+    for n in ast.walk(tree):
+        if not isinstance(n, ast.Compare) or len(n.ops) != 1:
+            continue
+        l, r = n.left, n.comparators[0]
+        operand = None
+        for a, b in ((l, r), (r, l)):
+            if isinstance(a, ast.Call) and call_name(a) == "js_typeof" and a.args:
+                operand, other = norm(a.args[0]), b
+            elif isinstance(a, ast.Name) and a.id in typeof_locals:
+                operand, other = typeof_locals[a.id], b
+            else:
+                continue
+            break
+        if operand is None:
+            continue
+        lits = [other] if isinstance(other, ast.Constant) else (list(other.elts) if isinstance(other, (ast.Tuple, ast.List, ast.Set)) else [])
+        if not any(isinstance(x, ast.Constant) and x.value == "object" for x in lits):
+            continue
+        # climb to the whole condition
+        top = n
+        while isinstance(getattr(top, "_parent", None), (ast.BoolOp, ast.UnaryOp)):
+            top = top._parent
+        excl = any(isinstance(c, ast.Compare) and len(c.ops) == 1 and isinstance(c.ops[0], (ast.Is, ast.IsNot, ast.Eq, ast.NotEq)) and {norm(c.left), norm(c.comparators[0])} == {operand, "NULL"} for c in ast.walk(top))
+        out.append((n, operand, excl))
+    return out
+
+
+def rule_null_is_not_an_object(ctx, rep, rid: str) -> None:
+    rep.rule(rid, "host code that decides whether a script value is an object never takes null for one: a test of js_typeof(v) against \"object\" is combined with a NULL test of the same value; the constructor-return decision (keep the new object unless the body returned an object) uses such a null-safe test", floor=2)
+    ctl = ast.parse("def f(v):\n    if js_typeof(v) not in ('object', 'function'):\n        return 1\n    if js_typeof(v) == 'object' and v is not NULL:\n        return 2\n")
+    for x in ast.walk(ctl):
+        for c in ast.iter_child_nodes(x):
+            c._parent = x  # type: ignore[attr-defined]
+    got = _typeof_object_tests(ctl)
+    if [x[2] for x in got] != [False, True]:
+        raise AnalysisError("positive control failed: typeof-object test detector")
+    n_sites = 0
+    for f in ctx.tree.funcs:
+        if f.module.name.startswith("regex"):
+            continue
+        for cmp_, operand, excl in _typeof_object_tests_in(f):
+            n_sites += 1
+            key = f"{f.qual}:typeof({operand})~object"
+            if excl:
+                rep.ok(rid, key)
+            else:
+                rep.bad(rid, key, f"{f.qual} decides objectness with {short(cmp_, 60)}: typeof null is \"object\", so null passes for an object here (e.g. `new F` with `return null` yields null instead of the new object)", f"{f.module.rel}:{cmp_.lineno}")
+    rep.ok(rid, "typeof-object-tests", {"sites": n_sites})
+    # the constructor-return decision
+    df, chain = ctx.facts.vm_dispatcher()
+    n_dec = 0
+    for f in ctx.tree.funcs:
+        if f.module.name != df.module.name:
+            continue
+        for n in f.own_nodes():
+            if isinstance(n, ast.If) and isinstance(n.test, ast.Attribute) and n.test.attr == "is_constructor_call":
+                for inner in n.body:
+                    if isinstance(inner, ast.If):
+                        n_dec += 1
+                        key = f"{f.qual}:constructor-return:{norm(inner.test)[:50]}"
+                        t = inner.test
+                        neg = isinstance(t, ast.UnaryOp) and isinstance(t.op, ast.Not)
+                        core = t.operand if neg else t
+                        if isinstance(core, ast.Call) and call_name(core) == "isinstance" and len(core.args) == 2:
+                            names = [norm(x) for x in (core.args[1].elts if isinstance(core.args[1], ast.Tuple) else [core.args[1]])]
+                            bad = [c for c in names if c != "JSObject" and not _is_subclass(ctx.tree, f, c, "JSObject") and not _callable_class(ctx, c)]
+                            if bad:
+                                rep.bad(rid, key, f"{f.qual}: the constructor-return decision counts {bad} as objects", f"{f.module.rel}:{inner.lineno}")
+                            else:
+                                rep.ok(rid, key, {"form": "isinstance against the object classes"})
+                        else:
+                            rep.ok(rid, key, {"form": "other (typeof sites are judged separately)"})
+    if n_dec == 0:
+        raise AnalysisError("constructor-return decision not found (no test under `is_constructor_call`)")
+
+
+def _callable_class(ctx, name: str) -> bool:
+    return name in ("JSFunction", "JSBoundMethod", "JSCallableObject")
+
+
+def _typeof_object_tests_in(f: Func):
+    own = {id(x) for x in f.own_nodes()}
+    return [t for t in _typeof_object_tests(f.node) if id(t[0]) in own]
